@@ -48,6 +48,16 @@ type ptCase struct {
 	holdNext bool
 	heldGid  int64
 	heldGate chan struct{}
+	// holdLock: the next watcher that is about to take the dispatcher's lock (any lock site of the current
+	// source) is parked right before it; heldAtLock tells settle() that the held goroutine stands there
+	holdLock   bool
+	holdSkip   int
+	heldAtLock bool
+	// lost: a watcher ran a critical section the model has no notion of (the code was restructured): the rest of
+	// the case goes on without the model (events become comments), the Go-side monitors still judge it
+	lost   bool
+	script []string
+	unknownSite string
 	// cancellers: goroutines that call Cancel() concurrently; each is parked just BEFORE it takes the
 	// dispatcher's lock (hook "before") until `release`, so that a watcher can pop / other futures can move in between
 	cancellers map[int64]*ptCanceller
@@ -59,6 +69,22 @@ type ptCanceller struct {
 	parked  bool
 	done    chan struct{}
 	hBefore int
+}
+
+// op writes an event line for the driver, or a comment once the model has been left behind
+func (c *ptCase) op(op, out string) {
+	if c.lost {
+		c.ctx.R.Comment(op + " | " + out)
+		return
+	}
+	c.ctx.R.Op(op, out)
+}
+
+func (c *ptCase) how() string {
+	if !c.lost {
+		return ""
+	}
+	return " [harness script: " + strings.Join(c.script, "; ") + "]"
 }
 
 func (c *ptCase) thread(gid int64) *ptThread {
@@ -98,8 +124,8 @@ func (c *ptCase) settle() {
 		stable := true
 		for _, id := range watcherGoroutines(gs) {
 			_, asleep := c.pendingSleep[id]
-			if id == c.heldGid && asleep {
-				continue // parked by the harness just before its select
+			if id == c.heldGid && (asleep || c.heldAtLock) {
+				continue // parked by the harness just before its select / just before a lock
 			}
 			if !(gs[id].state == "select" && asleep) {
 				stable = false
@@ -136,7 +162,11 @@ func (c *ptCase) settle() {
 // although no callback blocks.
 func (c *ptCase) someoneResponsible() {
 	w, h, tk := timeout.VerifPool()
-	if h == 0 || c.failed {
+	c.mu.Lock()
+	awakeAtLock := c.heldAtLock && c.heldGid != 0
+	c.mu.Unlock()
+	if h == 0 || c.failed || awakeAtLock {
+		// (a watcher the harness holds right before a lock is awake: it is the responsible one)
 		return
 	}
 	head, hid := -1, -1
@@ -180,7 +210,7 @@ func (c *ptCase) someoneResponsible() {
 	if nsleep != w {
 		return // a watcher is not asleep (about to act): it is responsible
 	}
-	c.ctx.R.Quiet("mon C13-someone-responsible", fmt.Sprintf("future %d (fire time %d) is pending at virtual time %d, but all %d watcher(s) sleep until %v and no wake token is queued", hid, head, c.vnow, w, dls))
+	c.ctx.R.Quiet("mon C13-someone-responsible", fmt.Sprintf("future %d (fire time %d) is pending at virtual time %d, but all %d watcher(s) sleep until %v and no wake token is queued", hid, head, c.vnow, w, dls)+c.how())
 	c.failed = true
 }
 
@@ -189,6 +219,13 @@ func (c *ptCase) flush(gs map[int64]goState) {
 	recs := append([]ptRec{}, c.recs[c.flushed:]...)
 	c.flushed = len(c.recs)
 	c.mu.Unlock()
+	c.mu.Lock()
+	us := c.unknownSite
+	c.mu.Unlock()
+	if us != "" && !c.lost {
+		c.ctx.R.Quiet("mon MODEL-pool-sections-known", "a watcher ran a critical section the model does not know: "+us+" (the rest of this case is judged by the Go-side monitors only)")
+		c.lost = true
+	}
 	for _, r := range recs {
 		if r.gid == c.mainGid {
 			// (a wake token sent while a watcher is blocked in its select is handed over at once: the channel
@@ -201,9 +238,18 @@ func (c *ptCase) flush(gs map[int64]goState) {
 			// by the API's contract, can only be `fut`
 			if r.b == 1 {
 				c.cancelled[r.a] = true
-				c.ctx.R.Op(fmt.Sprintf("cancel %d", r.a), "ok")
+				c.op(fmt.Sprintf("cancel %d", r.a), "ok")
 			} else if r.b != 0 {
 				c.ctx.R.Quiet("mon C12-cancel-removes-exactly", fmt.Sprintf("Cancel of future %d changed the number of pending futures by %d", r.a, -r.b))
+			}
+			continue
+		}
+		if r.kind == "held" {
+			// a watcher stands before a lock: if it was asleep (and the harness did not fire its timer) it has
+			// taken a wake token by now — tell the model WHEN (the channel's cap makes the order matter)
+			if t := c.thread(r.gid); t != nil && t.sleeping {
+				t.sleeping = false
+				c.op(fmt.Sprintf("wake %d", t.idx), "ok")
 			}
 			continue
 		}
@@ -219,12 +265,12 @@ func (c *ptCase) flush(gs map[int64]goState) {
 		}
 		switch r.kind {
 		case "sec":
-			c.ctx.R.Op(fmt.Sprintf("sec %d", t.idx), "ok")
-			c.ctx.R.Op(fmt.Sprintf("obs %d %d %d", r.a, r.b, r.c), "ok")
+			c.op(fmt.Sprintf("sec %d", t.idx), "ok")
+			c.op(fmt.Sprintf("obs %d %d %d", r.a, r.b, r.c), "ok")
 		case "sleep":
-			c.ctx.R.Op(fmt.Sprintf("sleep %d %d", t.idx, r.a), "ok")
+			c.op(fmt.Sprintf("sleep %d %d", t.idx, r.a), "ok")
 		case "start":
-			c.ctx.R.Op(fmt.Sprintf("start %d %d", t.idx, r.a), "ok")
+			c.op(fmt.Sprintf("start %d %d", t.idx, r.a), "ok")
 			// never early (virtual time), at most once
 			if !(r.b >= c.fireT[r.a]) {
 				c.ctx.R.Quiet("mon C13-never-early", fmt.Sprintf("future %d (fire time %d) started at virtual time %d", r.a, c.fireT[r.a], r.b))
@@ -244,13 +290,13 @@ func (c *ptCase) flush(gs map[int64]goState) {
 		if g, alive := gs[t.gid]; !alive || !strings.Contains(g.stack, "(*callControl).watcher") {
 			t.exited = true
 			t.sleeping = false
-			c.ctx.R.Op(fmt.Sprintf("exit %d", t.idx), "ok")
+			c.op(fmt.Sprintf("exit %d", t.idx), "ok")
 		}
 	}
 }
 
 func runPoolCase(ctx *Ctx, maxWorkers, idle int, script []string) {
-	c := &ptCase{ctx: ctx, mainGid: goid(), fireT: map[int]int{}, cancelled: map[int]bool{}, started: map[int]int{}, pendingSleep: map[int64][2]interface{}{}, heldGate: make(chan struct{}), cancellers: map[int64]*ptCanceller{},
+	c := &ptCase{ctx: ctx, script: script, mainGid: goid(), fireT: map[int]int{}, cancelled: map[int]bool{}, started: map[int]int{}, pendingSleep: map[int64][2]interface{}{}, heldGate: make(chan struct{}), cancellers: map[int64]*ptCanceller{},
 		base: time.Date(2030, 1, 1, 0, 0, 0, 0, time.UTC)}
 	// what one unit of the virtual clock stands for: a millisecond unless the script says otherwise
 	// ("unit <microseconds>"): nothing in the dispatcher may depend on the absolute size of a delay
@@ -298,6 +344,14 @@ func runPoolCase(ctx *Ctx, maxWorkers, idle int, script []string) {
 			if cn != nil && kind == "before" && cn.gate != nil {
 				cn.parked, gate = true, cn.gate
 			}
+			if cn == nil && kind == "before" && g != c.mainGid && c.holdLock && c.heldGid == 0 {
+				if c.holdSkip > 0 {
+					c.holdSkip-- // (`holdlock k`: the k-th lock acquisition from now)
+				} else {
+					c.holdLock, c.heldGid, c.heldAtLock, gate = false, g, true, c.heldGate
+					c.recs = append(c.recs, ptRec{gid: g, kind: "held"})
+				}
+			}
 			c.mu.Unlock()
 			if gate != nil {
 				<-gate
@@ -326,6 +380,9 @@ func runPoolCase(ctx *Ctx, maxWorkers, idle int, script []string) {
 			t.sleeping = false
 		}
 		delete(c.pendingSleep, g)
+		if g != c.mainGid && !strings.HasPrefix(site, "watcher#") && !c.lost {
+			c.unknownSite = site
+		}
 		c.recs = append(c.recs, ptRec{gid: g, kind: "sec", a: w, b: h, c: tk})
 		c.mu.Unlock()
 	}
@@ -337,7 +394,7 @@ func runPoolCase(ctx *Ctx, maxWorkers, idle int, script []string) {
 	}()
 	ctx.R.Case(maxWorkers, idle)
 	if unit != time.Millisecond {
-		ctx.R.Op(fmt.Sprintf("unit %d", int(unit/time.Microsecond)), "ok")
+		c.op(fmt.Sprintf("unit %d", int(unit/time.Microsecond)), "ok")
 	}
 	mk := func(id int) func() {
 		return func() {
@@ -380,8 +437,9 @@ func runPoolCase(ctx *Ctx, maxWorkers, idle int, script []string) {
 		g, gate := c.heldGid, c.heldGate
 		c.holdNext = false
 		if g != 0 {
-			c.heldGid, c.heldGate = 0, make(chan struct{})
+			c.heldGid, c.heldGate, c.heldAtLock = 0, make(chan struct{}), false
 		}
+		c.holdLock = false
 		c.mu.Unlock()
 		if g != 0 {
 			c.nontriv = true
@@ -411,6 +469,15 @@ func runPoolCase(ctx *Ctx, maxWorkers, idle int, script []string) {
 				c.holdNext = true
 			}
 			c.mu.Unlock()
+		case "holdlock":
+			c.mu.Lock()
+			if c.heldGid == 0 {
+				c.holdLock, c.holdSkip = true, 0
+				if x > 1 {
+					c.holdSkip = x - 1
+				}
+			}
+			c.mu.Unlock()
 		case "release":
 			release()
 		case "add":
@@ -436,7 +503,7 @@ func runPoolCase(ctx *Ctx, maxWorkers, idle int, script []string) {
 					c.nontriv = true // an arrival precedes the current head
 				}
 			}
-			ctx.R.Op(fmt.Sprintf("add %d", ft), "ok")
+			c.op(fmt.Sprintf("add %d", ft), "ok")
 			ctx.R.Enter()
 			fu := timeout.Call(mk(id), time.Duration(x)*unit)
 			ctx.R.Leave()
@@ -482,7 +549,7 @@ func runPoolCase(ctx *Ctx, maxWorkers, idle int, script []string) {
 			}
 			// still pending in the model's sense only if not yet popped: a popped-but-not-yet-started future cannot occur after settle
 			c.cancelled[x] = true
-			ctx.R.Op(fmt.Sprintf("cancel %d", x), "ok")
+			c.op(fmt.Sprintf("cancel %d", x), "ok")
 			ctx.R.Enter()
 			c.futs[x].Cancel()
 			ctx.R.Leave()
@@ -491,7 +558,7 @@ func runPoolCase(ctx *Ctx, maxWorkers, idle int, script []string) {
 			c.mu.Lock()
 			c.vnow += x
 			c.mu.Unlock()
-			ctx.R.Op(fmt.Sprintf("ticks %d", x), "ok")
+			c.op(fmt.Sprintf("ticks %d", x), "ok")
 		case "fire":
 			// let one eligible sleeper's timer expire (chosen by x among those whose deadline has passed)
 			var el []*ptThread
@@ -504,7 +571,7 @@ func runPoolCase(ctx *Ctx, maxWorkers, idle int, script []string) {
 				return
 			}
 			t := el[x%len(el)]
-			ctx.R.Op(fmt.Sprintf("fire %d", t.idx), "ok")
+			c.op(fmt.Sprintf("fire %d", t.idx), "ok")
 			c.mu.Lock()
 			t.sleeping = false
 			n0 := len(c.recs)
@@ -514,7 +581,7 @@ func runPoolCase(ctx *Ctx, maxWorkers, idle int, script []string) {
 			// the woken watcher must be seen to act before the system counts as settled again
 			for i := 0; i < 20000; i++ {
 				c.mu.Lock()
-				acted := len(c.recs) > n0
+				acted := len(c.recs) > n0 || (c.heldAtLock && c.heldGid == t.gid) // (… or to stand where the harness holds it)
 				c.mu.Unlock()
 				if acted {
 					break
@@ -561,7 +628,7 @@ func runPoolCase(ctx *Ctx, maxWorkers, idle int, script []string) {
 		}
 		for id, t := range c.fireT {
 			if !c.cancelled[id] && c.started[id] == 0 {
-				ctx.R.Quiet("mon C13-every-live-future-fires", fmt.Sprintf("future %d (fire time %d) was never started although time advanced to %d and every expired sleep timer was served", id, t, c.vnow))
+				ctx.R.Quiet("mon C13-every-live-future-fires", fmt.Sprintf("future %d (fire time %d) was never started although time advanced to %d and every expired sleep timer was served", id, t, c.vnow)+c.how())
 			}
 		}
 		// … and with nothing pending the pool winds down to zero watchers after idle rounds
@@ -646,9 +713,12 @@ func runPool(ctx *Ctx) {
 					// Cancel from another goroutine, stopped right before the dispatcher's lock; released later
 					script = append(script, fmt.Sprintf("cancelhold %d", r.Intn(adds)))
 				}
-			case x < 96:
+			case x < 95:
 				// the next watcher about to sleep is stopped between its section and its select
 				script = append(script, "holdsleep")
+			case x < 97:
+				// the next watcher about to take the dispatcher's lock is stopped right before it
+				script = append(script, "holdlock")
 			default:
 				script = append(script, "release")
 			}
@@ -701,6 +771,15 @@ func runPool(ctx *Ctx) {
 			script = append(script, "release", "tick 2")
 			if r.Chance(1, 2) {
 				script = append(script, "fire 0", "tick 12", "fire 0")
+			}
+		}
+		if r.Chance(1, 8) {
+			// directed: the LAST watcher stands before a lock on its way out (idle rounds used up) when a Call
+			// arrives: whoever decides "somebody is still there" must be right about it
+			script = []string{"add 1", "tick 2", "fire 0"}
+			for round := 0; round < 3; round++ {
+				k := r.Range(1, 2) // the next lock the watcher takes, or the one after it
+				script = append(script, fmt.Sprintf("tick %d", idle+1), "fire 0", fmt.Sprintf("holdlock %d", k), fmt.Sprintf("tick %d", idle+1), "fire 0", fmt.Sprintf("add %d", []int{0, 1, 3}[r.Intn(3)]), "release", "tick 5", "fire 0", "fire 0")
 			}
 		}
 		if r.Chance(1, 3) {
